@@ -33,7 +33,7 @@ type c10End struct {
 
 func c10(tier string) []*explore.Scenario {
 	var out []*explore.Scenario
-	sets := []string{"", "o", "U", "R", "X", "S", "oU", "UR", "RX", "oS", "URX", "UU", "RR", "Z", "ZR", "oZ", "T", "D", "TD", "UT", "DX", "B", "UB", "RB", "oB", "BB", "XBo"}
+	sets := []string{"", "o", "U", "R", "X", "S", "oU", "UR", "RX", "oS", "URX", "UU", "RR", "Z", "ZR", "oZ", "T", "D", "TD", "UT", "DX", "B", "UB", "RB", "oB", "BB", "XBo", "M", "XM", "MR", "UMo", "MM"}
 	// more blocked unary handlers than the pool has workers (8): the 9th/10th request waits in the read loop
 	sets = append(sets, "UUUUUUUUU", "UUUUUUUUUU", "UUUUUUUUUo", "UUUUUUUUUR")
 	// the statement's full range (8 unary and 8 streaming handlers in flight), default schedule
@@ -64,7 +64,7 @@ func c10(tier string) []*explore.Scenario {
 			out = append(out, c10One(set, c10End{"read", k}, bound))
 			out = append(out, c10One(set, c10End{"stop", k}, bound))
 		}
-		nresp := strings.Count(set, "o") + 2*strings.Count(set, "S") + 2*strings.Count(set, "e") + strings.Count(set, "B")
+		nresp := strings.Count(set, "o") + 2*strings.Count(set, "S") + 2*strings.Count(set, "e") + strings.Count(set, "B") + strings.Count(set, "M")
 		for k := 0; k < nresp; k++ {
 			out = append(out, c10One(set, c10End{"write", k}, bound))
 		}
@@ -204,7 +204,7 @@ func c10Reqs(c rune) int {
 	switch c {
 	case 'o', 'U', 'T':
 		return 1
-	case 'R', 'X', 'S', 'D', 'B':
+	case 'R', 'X', 'S', 'D', 'B', 'M':
 		return 1
 	case 'Z':
 		return 2
@@ -265,6 +265,11 @@ func c10One(set string, end c10End, bound int) *explore.Scenario {
 					req := env.ReqUnary(id, tag, "x")
 					req.Header.Headers = append(req.Header.Headers, kv("GRPC-Timeout", "1H"), kv("x-k", "v"))
 					script = append(script, req)
+				case 'M':
+					// a stream open whose -bin metadata is not valid (unpadded) base64: answered by a reset, no handler
+					open := env.ReqOpen(id, env.MBidi, tag)
+					open.Header.Headers = append(open.Header.Headers, kv("trace-bin", []string{"YQ", "+/8=", "!!"}[i%3]))
+					script = append(script, open)
 				case 'B':
 					// a message for a stream the server does not know: the server's answer is a reset (no handler)
 					script = append(script, env.ReqBody(id, env.MBidi, "x"))
@@ -328,7 +333,7 @@ func c10One(set string, end c10End, bound int) *explore.Scenario {
 			})
 			// a reader for the peer side: takes responses of immediate unary calls only,
 			// so that 'S' handlers really block in SendMsg
-			nread := strings.Count(set, "o") + strings.Count(set, "B")
+			nread := strings.Count(set, "o") + strings.Count(set, "B") + strings.Count(set, "M")
 			vsched.GoNamed("peer-reader", func() {
 				for i := 0; i < nread; i++ {
 					if _, err := d.Pipe.A.Read(context.Background()); err != nil {
